@@ -206,6 +206,22 @@ def body_closes(case):
     return any(op in CLOSERS or op.startswith('wrap') for op in (case.get('ops') or ()))
 
 
+def hx(t):
+    """UTF-8 hex of a string (`-` = empty), as the Lean driver reads it"""
+    return t.encode('utf-8').hex() or '-'
+
+
+def plain_name(n):
+    """one directory entry, not a path (the domain of the Lean model `C04.partName`)"""
+    return bool(n) and '/' not in n and '\x00' not in n and n not in ('.', '..') and ' ' not in n
+
+
+def part_is_dest(case):
+    """the case asks for a part file that IS the destination (same directory entry)"""
+    pn = case.get('pname')
+    return bool(pn) and os.path.normpath(os.path.join('/d', pn)) == os.path.join('/d', DEST)
+
+
 def ops_sizes(ops):
     """the sizes of the writes of a list of body ops"""
     out = []
@@ -412,9 +428,24 @@ class C04(Property):
                'namespace C04.Gen\n'
                'def textFlagsExcl : Bool := %s\ndef textFlagsCreat : Bool := %s\ndef textFlagsTrunc : Bool := %s\n'
                'def binFlagsExcl : Bool := %s\ndef binFlagsCreat : Bool := %s\ndef binFlagsTrunc : Bool := %s\n'
+               '/-- what `AtomicSaver(dest)` appends to the destination path for the default part file name\n'
+               '    (evaluated: part_path of a saver constructed on a probe path, minus its dest_path) -/\n'
+               'def partSuffix : List Char := [%s]\n'
                'end C04.Gen\n') % (b(txt & os.O_EXCL), b(txt & os.O_CREAT), b(txt & os.O_TRUNC),
-                                    b(binf & os.O_EXCL), b(binf & os.O_CREAT), b(binf & os.O_TRUNC))
+                                    b(binf & os.O_EXCL), b(binf & os.O_CREAT), b(binf & os.O_TRUNC),
+                                    ', '.join('Char.ofNat %d' % ord(c) for c in self.part_suffix(fu)))
         return {'C04_Consts.lean': src}
+
+    @staticmethod
+    def part_suffix(fu):
+        """the default part file name is the destination path plus this suffix ('' when the current source
+        does not build it that way: the obligation `source_part_suffix` then fails)"""
+        try:
+            sv = fu.AtomicSaver('/bv-probe-dir/bv-probe-name')
+            dp, pp = os.fspath(sv.dest_path), os.fspath(sv.part_path)
+            return pp[len(dp):] if pp.startswith(dp) else ''
+        except Exception:
+            return ''
 
     # ------------------------------------------------------------------ generation
     PATTERNS = {'none': [], 'one': [5], 'many': [3, 1, 4, 1, 5, 9, 2, 6], 'large': [300000]}
@@ -505,6 +536,24 @@ class C04(Property):
             yield dict(base, buffering=buffering, txt=txt, sizes=[3, 70000, 1], dest=self.PRESENT)
             yield dict(base, buffering=buffering, txt=txt, sizes=[5], post='seek0')
 
+    NAMES = ('dest.txt', 'a', 'data.json.part', '.hidden', 'x.part', 'part', 'd\u00e9st.txt', 'a b'.replace(' ', '_'), 'UPPER.TXT', '-', '~', 'x' * 60)
+
+    def name_cases(self):
+        """the NAME of the part file: what `AtomicSaver(dest, part_file=...)` chooses, against the Lean model
+        `C04.partName`; and whole saves whose part_file names the destination itself"""
+        for d in self.NAMES:
+            pfs = [None, '', d, d + '.part', '.part', 'x.tmp', d[:-1] or 'q', d + 'x', d.upper(), '.' + d]
+            for pf in pfs:
+                yield {'kind': 'pp', 'dname': d, 'pf': pf}
+            # part_file arguments that are paths, not names (outside the Lean model: oracle only)
+            for pf in ('./' + d, 'sub/../' + d, 'sub/' + d, '../' + d, d + '/'):
+                yield {'kind': 'pp', 'dname': d, 'pf': pf}
+        base = self.BASE
+        for dest, owp, raises in itertools.product((None, self.PRESENT), (0, 1), (0, 1)):
+            yield dict(base, dest=dest, owp=owp, raises=raises, pname=DEST)
+        yield dict(base, dest=self.PRESENT, pname='./' + DEST, owp=1, raises=1)
+        yield dict(base, dest=None, pname=DEST, ow=0, txt=1, sizes=[3, 70000])
+
     def fault_cases(self, fb, second):
         """one operating-system failure at every call of the save `fb`, for every errno of the family that makes
         the save behave differently; `second`: also a second failure at every later call"""
@@ -568,6 +617,7 @@ class C04(Property):
         # ---- round 2, small and adversarial first
         yield from self.body_cases()
         yield from self.instance_cases()
+        yield from self.name_cases()
         # read-only / mode-0 destinations (replacing them needs no write permission on the file itself)
         for mode, ow, raises in itertools.product((0o444, 0o400, 0), (1, 0), (0, 1)):
             yield dict(base, dest=[mode, 11], ow=ow, raises=raises, sizes=[3, 4])
@@ -754,6 +804,12 @@ class C04(Property):
         finally:
             spy.uninstall()
             spy.held = None
+            if not held and not spy.log and os.path.isfile(dest):
+                # the recorded save never began (refused by the constructor): the reader opens now
+                try:
+                    held.append(open(dest, 'rb'))
+                except OSError:
+                    held.append(None)
             if held and held[0] is None:
                 spy.held = 'unreadable'
             elif held:
@@ -776,6 +832,8 @@ class C04(Property):
     def dir_letter(self, d, dest, case):
         """what a listing of the directory shows of the part file's name: - absent, p present,
         l present and a hard link to the destination's inode (the window between link and unlink)"""
+        if part_is_dest(case):
+            return '-'
         try:
             sp = os.lstat(os.path.join(d, self.pname(case)))
         except OSError:
@@ -903,7 +961,7 @@ class C04(Property):
             obs['fired'] = int(any(r.get('injected') for r in spy.log))
             obs['final'] = classify(old, new, self.look(dest))
             names = sorted(os.listdir(d))
-            obs['part'] = 1 if self.pname(case) in names else 0
+            obs['part'] = 1 if (self.pname(case) in names and not part_is_dest(case)) else 0
             obs['extra'] = [n for n in names if n not in (DEST, self.pname(case)) and not n.startswith(DEST + '.prior')]
             obs['n_calls'] = spy.n
         finally:
@@ -921,9 +979,29 @@ class C04(Property):
         except (CaseTimeout, ChildDied) as e:
             return [{'events': [], 'calls': [], 'out': 'exc:' + exc_name(e), 'kills': '', 'final': '?', 'part': 0, 'extra': []} for _ in cases]
 
+    def impl_pp(self, case):
+        """what the constructor chooses as part path (public attributes dest_path / part_path)"""
+        import boltons.fileutils as fu
+        obs = {'pp': 'ok', 'same_dir': 0, 'name': '', 'is_dest': 0}
+        try:
+            with time_limit(10):
+                kw = {} if case['pf'] is None else {'part_file': case['pf']}
+                sv = fu.AtomicSaver(os.path.join('/bv-no-such-dir', case['dname']), **kw)
+                dp, pp = os.fspath(sv.dest_path), os.fspath(sv.part_path)
+                obs['same_dir'] = int(os.path.dirname(pp) == os.path.dirname(dp))
+                obs['name'] = os.path.basename(pp)
+                obs['is_dest'] = int(os.path.normpath(pp) == os.path.normpath(dp))
+        except CaseTimeout:
+            obs['pp'] = 'exc:CaseTimeout'
+        except Exception as e:
+            obs['pp'] = 'exc:' + exc_name(e)
+        return obs
+
     def impl(self, case, kills=True):
         if case.get('kind') == 'sys':
             return self.impl_sys(case)
+        if case.get('kind') == 'pp':
+            return self.impl_pp(case)
         import boltons.fileutils as fu
         old, new = self.contents(case)
         obs = {'events': [], 'calls': [], 'out': 'ok', 'kills': '', 'final': '?', 'part': 0, 'extra': []}
@@ -988,6 +1066,10 @@ class C04(Property):
     def line(self, case):
         if case.get('kind') == 'mv':
             return None            # the publishing primitive alone: no save for the automaton to judge (oracle-only)
+        if case.get('kind') == 'pp':
+            if not plain_name(case['dname']) or not (case['pf'] in (None, '') or plain_name(case['pf'])):
+                return None        # a path, not a name: outside the model `C04.partName` (oracle-only)
+            return 'P %s %s' % (hx(case['dname']), 'N' if case['pf'] is None else hx(case['pf']))
         k = self.key(case)
         if k not in self._cache:
             self.impl(case)
@@ -998,6 +1080,11 @@ class C04(Property):
         return ' '.join(['S' if case.get('kind') == 'sys' else 'A', str(case['umask']), dest, str(self.stale(case))] + evs)
 
     def render(self, case, obs):
+        if case.get('kind') == 'pp':
+            # any exception of the constructor is "refused" (class and message are not the statement's business)
+            if obs['pp'] != 'ok':
+                return 'refused'
+            return 'ok %s' % hx(obs['name']) if obs['same_dir'] else 'ok outside-the-directory'
         # what a safe, feasible trace must give; the letters are the REAL kill outcomes
         return 'safe=1 exec=ok proc=%s power=ok final=%s part=%d dirs=%s held=%s' % (
             '-' if obs['kills'] is None else obs['kills'], obs['final'], obs['part'],
@@ -1006,6 +1093,20 @@ class C04(Property):
     # ------------------------------------------------------------------ oracle: C04 restated on trace + kills
     def oracle(self, case, obs):
         st = self.stats
+        if case.get('kind') == 'pp':
+            # the part file must be a directory entry of its own: an accepted part_file never IS the destination
+            st['part_name_cases'] = st.get('part_name_cases', 0) + 1
+            self._nt = obs['pp'] == 'ok' and case['pf'] not in (None, '')
+            if obs['pp'] == 'exc:CaseTimeout':
+                return Failure('unexpected-exception', 'AtomicSaver() did not return')
+            if obs['pp'] == 'ok' and obs['is_dest']:
+                return Failure('part-is-destination', 'AtomicSaver(%r, part_file=%r) accepts a part file that is the destination itself: '
+                               'the destination is created empty and written in place' % (case['dname'], case['pf']))
+            if obs['pp'] != 'ok' and (case['pf'] in (None, '') or (plain_name(case['pf']) and case['pf'] != case['dname'])):
+                return Failure('unexpected-exception', 'AtomicSaver(%r, part_file=%r) raised %s' % (case['dname'], case['pf'], obs['pp'][4:]))
+            if obs['pp'] == 'ok' and plain_name(case['pf'] or 'x') and not obs['same_dir']:
+                return Failure('part-not-exclusive', 'the part file is not created in the directory of the destination')
+            return None
         st['saves'] = st.get('saves', 0) + 1
         st['kill_points'] = st.get('kill_points', 0) + len(obs['kills'] or '')
         if case.get('kind') == 'sys':
@@ -1016,7 +1117,11 @@ class C04(Property):
         # a body that closes (detaches) the part file itself takes the file away from the saver: the save may then be
         # refused with the ValueError of the closed file (destination untouched) - or be completed, correctly
         closed_refusal = body_closes(case) and obs['out'] == 'exc:ValueError'
-        if obs['out'].startswith('exc:') and not closed_refusal:
+        # a part_file that names the destination itself: the constructor refuses (nothing has been called yet)
+        alias_refusal = part_is_dest(case) and obs['out'].startswith('exc:') and obs['out'] not in ('exc:CaseTimeout', 'exc:ProcessEnded') and not obs['events']
+        if alias_refusal:
+            st['part_named_as_destination_refused'] = st.get('part_named_as_destination_refused', 0) + 1
+        if obs['out'].startswith('exc:') and not closed_refusal and not alias_refusal:
             return Failure('unexpected-exception', 'atomic_save raised %s' % obs['out'][4:])
         if body_closes(case):
             st['closing_bodies'] = st.get('closing_bodies', 0) + 1
@@ -1092,6 +1197,9 @@ class C04(Property):
                     obs['final']))
             if obs['final'] == 'n' and old_letter != 'n' and not pubs:
                 return Failure('dest-touched', 'new content at the destination without a publishing event')
+        elif alias_refusal:
+            if obs['final'] != old_letter:
+                return Failure('partial-destination', 'the saver refused its arguments but the destination is %s' % obs['final'])
         elif closed_refusal:
             if obs['final'] != old_letter:
                 return Failure('partial-destination', 'the save was refused (the body had closed the part file) but the destination is %s' % obs['final'])
@@ -1106,6 +1214,13 @@ class C04(Property):
             return Failure('partial-destination', 'the save did not complete but the destination is %s' % obs['final'])
         self._nt = bool(pubs) and 0 < pubs[0] < len(evs)
         return None
+
+    def finding_part_file_is_destination(self, case, failure):
+        """C04-part-file-is-destination: ONLY cases whose part_file argument resolves to the destination's own directory
+        entry (the name cases judged `part-is-destination`, and whole saves run with such a part_file)"""
+        if case.get('kind') == 'pp':
+            return failure.tag == 'part-is-destination'
+        return part_is_dest(case) and failure.tag in ('dest-touched', 'partial-destination', 'early-publication', 'normal-exit')
 
     def nontrivial(self, case, obs):
         return getattr(self, '_nt', False)
@@ -1140,6 +1255,8 @@ class C04(Property):
         return []
 
     def shrink(self, case):
+        if case.get('kind') == 'pp':
+            return
         if case.get('fault2'):
             yield {k: v for k, v in case.items() if k != 'fault2'}
         if case.get('ops'):
